@@ -1180,7 +1180,7 @@ static int exec_line(char* line)
     }
     if (errors != 0)
       comp_errors[c] = 1;
-    fprintf(out, "{\"op\":\"cadd\",\"errors\":%d,\"nerr\":%d,\"nwarn\":%d,\"msgs\":[%s]}\n", errors, cmsgs.nerr, cmsgs.nwarn, cmsgs.json ? cmsgs.json : "");
+    fprintf(out, "{\"op\":\"cadd\",\"errors\":%d,\"nerr\":%d,\"nwarn\":%d,\"code\":%d,\"msgs\":[%s]}\n", errors, cmsgs.nerr, cmsgs.nwarn, comps[c]->last_error, cmsgs.json ? cmsgs.json : "");
     free(ns.p);
     free(src.p);
   }
